@@ -291,6 +291,20 @@ pub fn stress_inputs() -> Vec<(String, String)> {
         add(&format!("nested-function-{}", n), format!(".dw {}1{}", "low(".repeat(n.min(12000)), ")".repeat(n.min(12000))));
         add(&format!("unclosed-parentheses-{}", n), format!("ldi r16, {}", "(".repeat(n)));
     }
+    // the same deep lines where the assembler only skims the text: untaken branches, the part
+    // after .else of a taken branch, macro bodies (called or not), after .exit
+    for n in [300usize, 4000, 30000] {
+        for (what, line) in [("parentheses", format!(".dw {}1{}", "(".repeat(n), ")".repeat(n))), ("unary-chain", format!("ldi r16, {}1", "-~!".repeat(n / 3))), ("unclosed", format!(".db {}", "(".repeat(n)))] {
+            add(&format!("deep-{}-{}-in-untaken-if", what, n), format!(".if 0\n{}\n.endif\nnop", line));
+            add(&format!("deep-{}-{}-after-else-of-taken-if", what, n), format!(".if 1\nnop\n.else\n{}\n.endif", line));
+            add(&format!("deep-{}-{}-in-untaken-elif", what, n), format!(".if 1\nnop\n.elif 1\n{}\n.endif", line));
+            add(&format!("deep-{}-{}-in-nested-untaken", what, n), format!(".if 0\n.ifdef q\n{}\n.endif\n.else\nnop\n.endif", line));
+            add(&format!("deep-{}-{}-in-uncalled-macro", what, n), format!(".macro mm\n{}\n.endm\nnop", line));
+            add(&format!("deep-{}-{}-in-called-macro", what, n), format!(".macro mm\n{}\n.endm\nmm", line));
+            add(&format!("deep-{}-{}-after-exit", what, n), format!("nop\n.exit\n{}", line));
+            add(&format!("deep-{}-{}-as-macro-argument", what, n), format!(".macro mm\n.dw @0\n.endm\nmm {}1{}", "(".repeat(n), ")".repeat(n)));
+        }
+    }
     for n in [10usize, 1000, 10000] {
         add(&format!("nested-if-{}", n), format!("{}nop\n{}", ".if 1\n".repeat(n), ".endif\n".repeat(n)));
         add(&format!("nested-if-unclosed-{}", n), ".if 0\n".repeat(n));
